@@ -305,27 +305,23 @@ func newRNode() *rnode {
 func (rn *rnode) rinsert(topic []byte, msg *message.PublishMessage) error {
 	// If there's no more topic levels, that means we are at the matching rnode.
 	if len(topic) == 0 {
-		l := msg.Len()
+		// The stored copy is always a new message over a new buffer: messages
+		// returned by earlier lookups may still be in use (a subscriber that is
+		// being sent its retained messages) and must not change under their holder.
+		buf := make([]byte, msg.Len())
 
-		// Let's reuse the buffer if there's enough space
-		if l > cap(rn.buf) {
-			rn.buf = make([]byte, l)
-		} else {
-			rn.buf = rn.buf[0:l]
-		}
-
-		if _, err := msg.Encode(rn.buf); err != nil {
+		if _, err := msg.Encode(buf); err != nil {
 			return err
 		}
 
-		// Reuse the message if possible
-		if rn.msg == nil {
-			rn.msg = message.NewPublishMessage()
-		}
+		m := message.NewPublishMessage()
 
-		if _, err := rn.msg.Decode(rn.buf); err != nil {
+		if _, err := m.Decode(buf); err != nil {
 			return err
 		}
+
+		rn.buf = buf
+		rn.msg = m
 
 		return nil
 	}
